@@ -1717,6 +1717,11 @@ TARGETS2 = {
         ("varintFOR.c", "varintFORComputeWidth", "forComputeWidth"),
         ("varintFOR.c", "varintFORAnalyze", "forAnalyze"),
     ],
+    "CChainedW": [
+        ("varintChained.c", "putVarint64", "chainedPut64"),
+        ("varintChained.c", "varintChainedPutVarint", "chainedPutVarint"),
+        ("varintChained.c", "varintChainedVarintLen", "chainedVarintLen"),
+    ],
     "CAdaptive": [
         ("varintAdaptive.c", "varintAdaptiveCheckSorted", "adaptiveCheckSorted"),
     ],
